@@ -83,14 +83,15 @@ def competing_specs(tier):
             if tier == "quick" and caps[2] == 2.0 and mask not in (1, 2, 4, 8, 9, 6):
                 continue
             names = ["A0", "B0", "A1", "B1"]
-            tasks = [{"name": "A0", "work": 1.0, "nf": True}, {"name": "B0", "work": 2.0, "nf": True}, {"name": "A1", "work": 2.0, "nf": True}, {"name": "B1", "work": 1.0, "nf": True}]
+            wpr = "SSP" if mask % 2 else "FSS"  # (every other layout under the skill-points rule: the preferred welding place is the better equipped one)
+            tasks = [{"name": "A0", "work": 1.0, "nf": True, "wprule": wpr}, {"name": "B0", "work": 2.0, "nf": True, "wprule": wpr}, {"name": "A1", "work": 2.0, "nf": True, "wprule": wpr}, {"name": "B1", "work": 1.0, "nf": True, "wprule": wpr}]
             links = [[0, 1, "FS"], [2, 3, "FS"]]
             comps = [{"name": "X", "tasks": [0, 1]}, {"name": "Y", "tasks": [2, 3]}]
             cutsk = {"A0": 1.0, "A1": 1.0}
             weldsk = {"B0": 1.0, "B1": 1.0}
             wps = [{"name": "CUT1", "cap": caps[0], "targets": [0, 2], "facilities": [{"name": "FC1", "skills": dict(cutsk)}]},
                    {"name": "CUT2", "cap": caps[1], "targets": [0, 2], "facilities": [{"name": "FC2", "skills": dict(cutsk)}]},
-                   {"name": "WELD1", "cap": caps[2], "targets": [1, 3], "facilities": [{"name": "FW1", "skills": dict(weldsk)}], "inputs": [i for i in (0, 1) if mask >> i & 1]},
+                   {"name": "WELD1", "cap": caps[2], "targets": [1, 3], "facilities": [{"name": "FW1", "skills": {k: 2.0 for k in weldsk}}], "inputs": [i for i in (0, 1) if mask >> i & 1]},
                    {"name": "WELD2", "cap": caps[3], "targets": [1, 3], "facilities": [{"name": "FW2", "skills": dict(weldsk)}], "inputs": [i for i in (0, 1) if mask >> (2 + i) & 1]}]
             full = {nm: 1.0 for nm in names}
             fs = {"FC1": 1.0, "FC2": 1.0, "FW1": 1.0, "FW2": 1.0}
@@ -99,8 +100,24 @@ def competing_specs(tier):
     return out
 
 
+def deep_nesting_specs():
+    """a product nested ten levels deep (top P0 ... part P9); top and bottom have a facility task, the top is processed in a hall, the part in a shop first"""
+    out = []
+    for n in (3, 10):
+      for part_first in (True,):  # (parent and part READY together is the known nested-placement finding of section 8.2)
+          tasks = [{"name": "T0", "work": 2.0, "nf": True}, {"name": "T1", "work": 1.0, "nf": True}]
+          comps = [{"name": "P%d" % i, "tasks": ([0] if i == 0 else ([1] if i == n - 1 else [])), "children": ([i + 1] if i < n - 1 else []), "space": 1.0} for i in range(n)]
+          wps = [{"name": "HALL", "cap": 1.0, "targets": [0], "facilities": [{"name": "F0", "skills": {"T0": 1.0}}]},
+                 {"name": "SHOP", "cap": 1.0, "targets": [1], "facilities": [{"name": "F1", "skills": {"T1": 1.0}}]}]
+          teams = [{"name": "TM0", "targets": [0, 1], "workers": [{"name": "W0", "skills": {"T0": 1.0, "T1": 1.0}, "fskills": {"F0": 1.0, "F1": 1.0}}]}]
+          out.append({"tasks": tasks, "links": [[1, 0, "FS"]] if part_first else [], "components": comps, "workplaces": wps, "teams": teams, "label": "deep-nesting:%d:%s" % (n, part_first)})
+    return out
+
+
 def items(tier):
     out = []
+    for sp in deep_nesting_specs():
+        out.append((sp, {"rule": "TSLACK", "max_time": 14}))
     for sp in list(F.fac_specs(tier)) + competing_specs(tier) + F.same_name_workplace_specs() + F.waiting_assembly_specs() + F.ff_held_component_specs() + F.late_placement_specs() + F.sequential_facility_specs():
         out.append((sp, {"rule": "TSLACK", "max_time": F.seq_bound(sp) + 8}))
     return out
